@@ -2,24 +2,26 @@
 """save_seeded.py <ID> <mN> <short-name> "<needs>" : keep a confirmed seeded change under /verif/seeded/"""
 import sys, os, shutil, glob, json, subprocess
 pid, m, name, needs = sys.argv[1:5]
-src = f"/tmp/wt/{pid}.out/{m}"
+WT = os.environ.get("WT", "/tmp/wt")
+src = f"{WT}/{pid}.out/{m}"
 dst = f"/verif/seeded/{pid}-{name}"
 os.makedirs(dst, exist_ok=True)
 for f in glob.glob(src + "/*"):
     if os.path.isfile(f) and os.path.getsize(f) < 200000:
         shutil.copy(f, dst)
-cached = f"/tmp/wt/confirm/{pid}-{m}.json"
+cached = f"{WT}/confirm/{pid}-{m}.json"
 if os.path.exists(cached):
-    confj = json.load(open(cached))
+    t = open(cached).read()
+    confj = json.loads(t[t.index("{"):t.rindex("}") + 1])
 else:
-    conf = subprocess.run([sys.executable, "/verif/bin/confirm_mutant.py", f"/tmp/wt/{pid}", src], stdout=subprocess.PIPE).stdout.decode()
+    conf = subprocess.run([sys.executable, "/verif/bin/confirm_mutant.py", f"{WT}/{pid}", src], stdout=subprocess.PIPE).stdout.decode()
     try:
         confj = json.loads(conf[conf.index("{"):])
     except Exception:
         confj = {"raw": conf[-500:]}
 assert confj.get("confirmed"), confj
 meta = {"breaks_property": pid, "needs_to_manifest": needs,
-        "origin": "fresh sub-agent given only the property text and a scratch worktree of /repo at commit 0156c5e",
+        "origin": "fresh sub-agent given only the property text and a scratch worktree of /repo at commit 0156c5e" + (" (second round: asked for changes that are hard to find)" if WT.endswith("wt2") else ""),
         "confirmed_by": "bin/confirm_mutant.py in the scratch worktree: 35 baseline tests pass with the change, builds with --features verif, demonstration fails with the change and passes without",
         "confirmation": confj}
 json.dump(meta, open(dst + "/meta.json", "w"), indent=1)
